@@ -26,17 +26,31 @@ Three comparisons, all on the namespace / generated package of the shared codec 
    the model does not transcribe the emitted code (or PyDSDL's BitLengthSet and `lenRes` disagree).
 
 Any difference is `ctx.disagree` (a broken tie).  Counts: ctx.traces per three-way comparison, ctx.count per outcome.
+
+Bounds (the Lean model works on lists: a buffer access is linear in the index, so a type of tens of kilobytes costs
+seconds per request): types whose largest representation exceeds LIMIT_BYTES are not sent to `genpy` (counted
+`skipped-large`; they stay in the specification-level tie of c01/c02 and in the structural scan here; the driver
+itself answers `skipped-large` above its own limit, so no single request can run for long); requests go out in
+round-robin batches, every driver / worker call has a timeout (a hanging worker is killed), and after the wall budget
+(quick 30 s, thorough 300 s; VERIF_GENPY_BUDGET overrides) the remaining requests are counted `skipped-budget`.
+All of it is recorded in ctx.extra["genpy_tie"].
 """
+import concurrent.futures
 import json
 import os
 import pathlib
 import re
 import subprocess
 import sys
+import time
 
 from . import common
 from . import codec_engine as E
+from . import codec_ref as R
 from . import codec_targets as T
+
+LIMIT_BYTES = 3000       # largest representation of a type that is still sent to the list-based model
+BATCH = 300              # requests per driver / worker call
 
 HERE = pathlib.Path(__file__).resolve().parent
 
@@ -191,11 +205,13 @@ main()
 
 
 class _Worker(T._PyWorker):
-    """codec_targets._PyWorker with the script above (same process protocol: 'ready', then one answer per line)."""
+    """codec_targets._PyWorker with the script above (same process protocol: 'ready', then one answer per line);
+    one exchange per call, no restart loop, killable from a watchdog."""
 
     def __init__(self, outdir, numpy_dir, script):
         super().__init__(outdir, numpy_dir)
         self.script = script
+        self.killed = False
 
     def _start(self):
         env = dict(os.environ)
@@ -208,6 +224,59 @@ class _Worker(T._PyWorker):
             err = self.proc.stderr.read()[-2000:]
             self.proc = None
             raise RuntimeError("genpy tie worker did not start: " + err)
+
+    def ask(self, lines):
+        self.killed = False
+        if self.proc is None or self.proc.poll() is not None:
+            self._start()
+        out = self._exchange(lines)
+        if len(out) < len(lines):
+            rc = self.proc.poll() if self.proc is not None else None
+            self.proc = None
+            if self.killed:
+                out += ["skipped-timeout"] * (len(lines) - len(out))
+            else:   # the worker died by itself on the first unanswered request
+                out += [f"crash:{rc}"] + ["skipped-crash"] * (len(lines) - len(out) - 1)
+        return out
+
+    def kill(self):
+        self.killed = True
+        p = self.proc
+        if p is not None:
+            try:
+                p.kill()
+            except Exception:
+                pass
+
+
+def _ask_workers(workers, lines, timeout):
+    """lines dealt to the workers; a watchdog kills them after `timeout` seconds (their unanswered lines: skipped-timeout)."""
+    k = min(len(workers), max(1, len(lines) // 50))
+    shares = [list(range(i, len(lines), k)) for i in range(k)]
+    answers = ["skipped-timeout"] * len(lines)
+    ex = concurrent.futures.ThreadPoolExecutor(max_workers=k)
+    try:
+        futs = [ex.submit(workers[i].ask, [lines[j] for j in shares[i]]) for i in range(k)]
+        done, pending = concurrent.futures.wait(futs, timeout=timeout)
+        if pending:
+            for w in workers[:k]:
+                w.kill()
+            concurrent.futures.wait(futs, timeout=10)
+        for idxs, f in zip(shares, futs):
+            if f.done() and f.exception() is None:
+                for j, a in zip(idxs, f.result()):
+                    answers[j] = a
+    finally:
+        ex.shutdown(wait=False)
+    return answers
+
+
+def _ask_driver(drv, lines, timeout):
+    """-> answers or None on timeout / failure (subprocess.run kills the driver on timeout)"""
+    try:
+        return drv.ask(lines, timeout=timeout)
+    except Exception:  # noqa  (TimeoutExpired, driver failure)
+        return None
 
 
 # ------------------------------------------------------------------------------------------------------------
@@ -253,6 +322,8 @@ _SER_MAP = {"exc:assertion": ("exc:AssertionError", "err:bad-array-length"),
 
 def _ser_agree(g, p, s):
     """genpy answer g, generated Python p, specification s  ->  (agree, class)"""
+    if g == "skipped-large" or p.startswith("skipped-"):
+        return True, "skipped-large" if g == "skipped-large" else p
     if p == "n/a":
         return True, "outside-domain"
     if g.startswith("ok "):
@@ -263,6 +334,8 @@ def _ser_agree(g, p, s):
 
 
 def _de_agree(g, p, s):
+    if g == "skipped-large" or p.startswith("skipped-"):
+        return True, "skipped-large" if g == "skipped-large" else p
     if g.startswith("ok "):
         return g == p == s, "value"
     if g.startswith("none:"):
@@ -282,7 +355,16 @@ def _driver(ctx, drivers, name):
     return common.Driver(exe)
 
 
-def run_genpy(ctx, drivers=None, n_values=None, n_bytes=None):
+def run_genpy(ctx, drivers=None, n_values=None, n_bytes=None, budget=None):
+    t_start = time.time()
+    budget = float(os.environ.get("VERIF_GENPY_BUDGET") or budget or (30 if ctx.quick else 300))
+    info = {"budget_seconds": budget, "limit_bytes": LIMIT_BYTES, "requests": 0, "compared": 0, "skipped_large": 0,
+            "skipped_budget": 0, "skipped_timeout": 0, "skipped_crash": 0, "large_types": []}
+    ctx.extra["genpy_tie"] = info
+
+    def left():
+        return budget - (time.time() - t_start)
+
     genpy = _driver(ctx, drivers, "genpy")
     codec = _driver(ctx, drivers, "codec")
     if genpy is None or codec is None:
@@ -292,59 +374,90 @@ def run_genpy(ctx, drivers=None, n_values=None, n_bytes=None):
     if py is None:
         ctx.broken.append({"kind": "genpy-tie", "what": "the Python target of the codec session was not built"})
         return
+    # structural tie first: cheap, never cut by the budget
+    t_ans = _ask_driver(genpy, ["trace " + gt.tstr for gt in sess.ns.types], 120)
+    if t_ans is None:
+        ctx.broken.append({"kind": "genpy-tie", "what": "genpy did not answer the trace requests within 120 s"})
+    else:
+        for gt, a in zip(sess.ns.types, t_ans):
+            try:
+                ts, td = text_trace(py.outdir / "gen", gt)
+            except Exception as ex:  # noqa
+                ctx.broken.append({"kind": "genpy-tie", "what": f"cannot scan generated text of {gt.full_name}: {ex}"})
+                continue
+            want = "ok " + " ".join(ts) + " | " + " ".join(td)
+            ctx.count("genpy:trace")
+            ctx.count("genpy:trace-methods", len(ts) + len(td))
+            ctx.traces += 1
+            if a != want:
+                ctx.disagree("genpy-trace", {"type": gt.full_name, "expr": gt.tstr[:2000]}, {"genpy": a[:3000]},
+                             {"generated-text": want[:3000]})
+    # dynamic tie
     script = ctx.scratch / "genpy_pyworker.py"
     script.write_text(WORKER)
     rng = ctx.rng
     nv = n_values or (30 if ctx.quick else 80)
     kb, rb = n_bytes or ((4, 12) if ctx.quick else (8, 30))
-    reqs = []
-    for gt in sess.ns.types:
+    per_type = []
+    nominal = (nv + 1 if ctx.prop != "C02" else 0) + (kb + rb if ctx.prop != "C01" else 0)
+    for ti, gt in enumerate(sess.ns.types):
+        if R.bounds(gt.expr)[1] // 8 > LIMIT_BYTES:
+            # not generated at all: the values alone are hundreds of kilobytes of text
+            n = (nv + 1 if ctx.prop != "C02" else 0) + (kb + rb if ctx.prop != "C01" else 0)
+            info["skipped_large"] += n
+            info["large_types"].append(gt.full_name)
+            ctx.count("genpy:skipped-large", n)
+            continue
+        rs = []
         if ctx.prop != "C02":
-            for v in E.value_cases(rng, gt, nv, p_invalid=0.08):
-                reqs.append(E.Req(gt, "ser", v))
+            rs += [E.Req(gt, "ser", v) for v in E.value_cases(rng, gt, nv, p_invalid=0.08)]
         if ctx.prop != "C01":
-            for b in E.bytes_cases(rng, gt, kb, rb):
-                reqs.append(E.Req(gt, "de", b))
-    model_lines = [r.model_lines()[0] for r in reqs]
-    a_gen = genpy.ask(model_lines, timeout=1800)
-    a_spec = codec.ask(model_lines, timeout=1800)
+            rs += [E.Req(gt, "de", b) for b in E.bytes_cases(rng, gt, kb, rb)]
+        per_type.append(rs)
+        if left() < budget * 0.5:       # generation itself may not eat the budget
+            n = nominal * (len(sess.ns.types) - ti - 1)
+            info["skipped_budget"] += n
+            ctx.count("genpy:skipped-budget", n)
+            break
+    # round robin over the types, so that a budget cut thins every type instead of dropping the last ones
+    reqs = []
+    for i in range(max((len(rs) for rs in per_type), default=0)):
+        reqs += [rs[i] for rs in per_type if i < len(rs)]
+    info["requests"] = len(reqs)
     workers = [_Worker(py.outdir, py.numpy_dir, script) for _ in range(4)]
     try:
-        import concurrent.futures
-        lines = [r.target_line() for r in reqs]
-        k = min(len(workers), max(1, len(lines) // 50))
-        shares = [list(range(i, len(lines), k)) for i in range(k)]
-        a_py = [None] * len(lines)
-        with concurrent.futures.ThreadPoolExecutor(max_workers=k) as ex:
-            futs = [ex.submit(workers[i].ask, [lines[j] for j in shares[i]]) for i in range(k)]
-            for idxs, f in zip(shares, futs):
-                for j, a in zip(idxs, f.result()):
-                    a_py[j] = a
+        for start in range(0, len(reqs), BATCH):
+            if left() <= 1:
+                n = len(reqs) - start
+                info["skipped_budget"] += n
+                ctx.count("genpy:skipped-budget", n)
+                break
+            batch = reqs[start:start + BATCH]
+            tmo = max(3.0, min(60.0, left()))
+            model_lines = [r.model_lines()[0] for r in batch]
+            a_gen = _ask_driver(genpy, model_lines, tmo)
+            a_spec = _ask_driver(codec, model_lines, max(3.0, min(60.0, left()))) if a_gen is not None else None
+            if a_gen is None or a_spec is None:
+                info["skipped_timeout"] += len(batch)
+                ctx.count("genpy:skipped-timeout", len(batch))
+                continue
+            a_py = _ask_workers(workers, [r.target_line() for r in batch], max(3.0, min(60.0, left())))
+            for r, ml, g, p, s in zip(batch, model_lines, a_gen, a_py, a_spec):
+                ok, cls = (_ser_agree if r.op == "ser" else _de_agree)(g, p, s)
+                if cls.startswith("skipped-"):
+                    info[cls.replace("-", "_")] = info.get(cls.replace("-", "_"), 0) + 1
+                    ctx.count("genpy:" + cls)
+                    continue
+                ctx.count(f"genpy:{r.op}:{cls}")
+                ctx.case(("genpy", r.gt.tstr, r.op, r.text), nontrivial=(r.text not in ("{}", "-")))
+                if cls != "outside-domain":
+                    ctx.traces += 1
+                    info["compared"] += 1
+                if not ok:
+                    ctx.disagree("genpy-" + r.op, {"type": r.gt.full_name, "request": ml[:2000]},
+                                 {"genpy": g[:1500], "spec": s[:1500]}, {"generated-python": (p or "")[:1500]})
     finally:
         for w in workers:
-            w.close()
-    for r, ml, g, p, s in zip(reqs, model_lines, a_gen, a_py, a_spec):
-        ok, cls = (_ser_agree if r.op == "ser" else _de_agree)(g, p, s)
-        ctx.count(f"genpy:{r.op}:{cls}")
-        ctx.case(("genpy", r.gt.tstr, r.op, r.text), nontrivial=(r.text not in ("{}", "-")))
-        if cls != "outside-domain":
-            ctx.traces += 1
-        if not ok:
-            ctx.disagree("genpy-" + r.op, {"type": r.gt.full_name, "request": ml[:2000]},
-                         {"genpy": g[:1500], "spec": s[:1500]}, {"generated-python": (p or "")[:1500]})
-    # structural tie
-    t_ans = genpy.ask(["trace " + gt.tstr for gt in sess.ns.types], timeout=600)
-    for gt, a in zip(sess.ns.types, t_ans):
-        try:
-            ts, td = text_trace(py.outdir / "gen", gt)
-        except Exception as ex:  # noqa
-            ctx.broken.append({"kind": "genpy-tie", "what": f"cannot scan generated text of {gt.full_name}: {ex}"})
-            continue
-        want = "ok " + " ".join(ts) + " | " + " ".join(td)
-        ctx.count("genpy:trace")
-        ctx.count("genpy:trace-methods", len(ts) + len(td))
-        ctx.traces += 1
-        if a != want:
-            ctx.disagree("genpy-trace", {"type": gt.full_name, "expr": gt.tstr[:2000]}, {"genpy": a[:3000]},
-                         {"generated-text": want[:3000]})
-    ctx.sample({"genpy_tie": {"requests": len(reqs), "classes": len(sess.ns.types)}})
+            w.kill()
+    info["seconds"] = round(time.time() - t_start, 2)
+    ctx.sample({"genpy_tie": {k: v for k, v in info.items() if k != "large_types"}})
